@@ -251,6 +251,9 @@ bool StepScript(InterpreterEnv& env)
             // and checked before anything is changed: a refused step leaves the session as it was)
             if (env.p2shstack.empty())
                 return set_error(serror, SCRIPT_ERR_INVALID_STACK_OPERATION);
+            // the redeem script is evaluated like any other script: it is subject to the size limit too
+            if (env.p2shstack.back().size() > MAX_SCRIPT_SIZE)
+                return set_error(serror, SCRIPT_ERR_SCRIPT_SIZE);
 
             // Restore stack.
             is_p2sh = false;
